@@ -73,19 +73,20 @@ def cmd_replay(args):
     d = json.load(open(args.path))
     rp = d.get("replay") or {}
     print("property=%s obligation=%s engine=%s" % (d.get("property"), d.get("obligation"), d.get("engine")))
-    if rp.get("replay_test") or rp.get("harness"):
+    if rp.get("test") and rp.get("input_hex") is not None:
         import kani
-        table = {h["name"]: h for h in kani.load_table()}
-        h = table.get(rp.get("harness"), {})
-        if h.get("replay_test") and rp.get("input_hex") is not None:
-            with workspace.Scratch("replay") as sc:
-                sc.copy_repo()
-                kani.overlay(sc)
-                r = kani.native_replay(sc, h["replay_test"], rp["input_hex"], {})
-            for l in r["lines"]:
-                print(l)
-            print("reproduced=%s" % r["reproduced"])
-            return 1 if r["reproduced"] else 0
+        with workspace.Scratch("replay") as sc:
+            sc.copy_repo()
+            kani.overlay(sc)
+            r = kani.native_replay(sc, rp["test"], rp["input_hex"], {})
+        for l in r["lines"]:
+            print(l)
+        print("reproduced=%s" % r["reproduced"])
+        return 1 if r["reproduced"] else 0
+    if rp.get("concrete_values"):
+        print("counterexample produced by CBMC on the real function (values in the order of the harness's kani::any() calls):")
+        print(rp["concrete_values"])
+        return 1
     print(d.get("verifier_output", ""))
     print("no executable replay attached: the verifier gave no counterexample for this obligation (no-failing-input-found)")
     return 0
